@@ -97,6 +97,51 @@ def _pushpop(P):
                 if hit and bound_ok and dom_ok and skips(f, i["c"][1]):
                     loop_ok = True
                     loop_where = f.where(i)
+    # the name tested is the name pushed: same expression, and its object is not edited in between
+    if n is not None and pushes:
+        peekvars = {key(x["c"][0]) for x in walk(n["c"][3]) if x["k"] == "BinaryOperator" and x["op"] == "=" and
+                    strip(x["c"][1]) is not None and strip(x["c"][1])["k"] == "CallExpr" and strip(x["c"][1]).get("callee") == "stack_peek_index"}
+        cands = {key(a) for c in cmps for a in c["c"][1:] if key(a) not in peekvars and "stack_peek_index" not in key(a)}
+        pos = f.cfg.positions()
+        for p in pushes:
+            pk = key(p["c"][2])
+            same = cands == {pk}
+            root = re.match(r"[\(\*&]*([A-Za-z_]\w*)", pk).group(1)
+            L = pos.get(n["c"][1]["i"], (None,))[0]
+            Pb = pos.get(p["i"], (None,))[0]
+            edits = []
+            if same and L is not None and Pb is not None:
+                fwd = f.cfg.reachable(start=L, blocked={Pb}) | {Pb}
+                back, st = set(), [Pb]
+                while st:
+                    b = st.pop()
+                    if b in back:
+                        continue
+                    back.add(b)
+                    if b == L:
+                        continue
+                    st.extend(f.cfg.blocks[b].preds)
+                between = fwd & back
+                for x in f.walk():
+                    hit = False
+                    if x["k"] == "CallExpr" and any(key(a) in (root, "&" + root) for a in x["c"][1:]):
+                        hit = True
+                    elif (x["k"] == "BinaryOperator" and x["op"] == "=" or x["k"] == "CompoundAssignOperator") and key(x["c"][0]) in (root, pk):
+                        hit = True
+                    if not hit:
+                        continue
+                    z = x
+                    while z is not None and z["i"] not in pos:
+                        z = f.parent(z)
+                    if z is None:
+                        continue
+                    b, i = pos[z["i"]]
+                    if b in between and not (b == Pb and i >= pos[p["i"]][1]) and not (b == L and i <= pos[n["c"][1]["i"]][1] and L != Pb):
+                        edits.append(x)
+            ok = same and not edits
+            out.append(("the name compared by the membership test (%s) is the name pushed (%s), and %s is not edited between the test "
+                        "and the push" % ("/".join(sorted(cands)) or "?", pk, root), ok, "pushpop:same-name",
+                        f.where(edits[0]) if edits else f.where(p)))
     out.append(("a loop over %s[0..size at entry) compares the file against every file being expanded, dominates the recursive "
                 "call, and its hit branch skips the recursion" % stk, loop_ok, "pushpop:visited", loop_where))
     for r in rec:
@@ -626,3 +671,59 @@ def r_span_split(P, chk):
                               "end is not the end of the token being split: the piece overlaps its successor or runs past the source" % (
                                   fn, f.src(c["c"][2]), f.src(c["c"][3])))
     chk.floor(rid, n, 3, "remainder tokens created by the split primitives")
+
+
+# ---------------------------------------------------------------------------
+# R-LINK/mate (C15): only unmatched tokens are paired
+
+def _conjuncts(e):
+    e = strip(e)
+    if e is None:
+        return []
+    if e["k"] == "BinaryOperator" and e["op"] == "&&":
+        return _conjuncts(e["c"][0]) + _conjuncts(e["c"][1])
+    return [e]
+
+
+def _guarded_unmatched(f, node, var):
+    """Is `node` inside the then-branch of an `if` one of whose conjuncts is `var->unmatched` (or `var->mate == NULL`)?"""
+    cur = node
+    for a in f.ancestors(node):
+        if a["k"] == "IfStmt" and a["c"][1] is not None and any(x is cur for x in walk(a["c"][1])):
+            for cj in _conjuncts(a["c"][0]):
+                k = key(cj).replace(" ", "")
+                if k == var + "->unmatched" or k in ("(%s->mate==0)" % var, "!%s->mate" % var):
+                    return True
+        cur = a
+    return False
+
+
+def r_mate_guard(P, chk):
+    rid = "R-LINK"
+    n = 0
+    for f in P.all_funcs:
+        if not P.first_party(f):
+            continue
+        for c in f.calls("token_pair_mate"):
+            n += 1
+            a, b = key(c["c"][1]), key(c["c"][2])
+            for var in (a, b):
+                # either guarded directly, or taken from a stack whose pushes are all guarded
+                ok = _guarded_unmatched(f, c, var)
+                src = None
+                if not ok:
+                    for x in f.walk():
+                        if x["k"] == "BinaryOperator" and x["op"] == "=" and key(x["c"][0]) == var:
+                            r = strip(x["c"][1])
+                            if r is not None and r["k"] == "CallExpr" and r.get("callee") in ("stack_peek_index", "stack_peek", "stack_pop"):
+                                src = key(r["c"][1])
+                    if src is not None:
+                        pushes = [p for p in f.calls("stack_push") if key(p["c"][1]) == src]
+                        ok = bool(pushes) and all(_guarded_unmatched(f, p, key(p["c"][2])) for p in pushes)
+                chk.obligation(rid, "%s %s: token_pair_mate operand `%s` is known to be unmatched (%s)" % (
+                    f.where(c), f.name, var, "guard" if src is None else "every push onto %s is guarded" % src), ok=ok)
+                if not ok:
+                    chk.violation(rid, "link:mate-guard:%s:%s" % (f.name, var), f.where(c),
+                                  "%s pairs `%s` without testing that it is still unmatched: a token that already has a mate is "
+                                  "paired again and its old partner keeps pointing at it (asymmetric mates)" % (f.name, var))
+    chk.floor(rid, n, 1, "token_pair_mate call sites")
